@@ -107,7 +107,7 @@ EXPORT rsize_t _strnlen_s_chk(const char *str, rsize_t smax, size_t strbos)
     }
 
     count = 0;
-    while (*str && smax) {
+    while (smax && *str) {
         count++;
         smax--;
         str++;
